@@ -204,6 +204,7 @@ def writer_state(depth):
                       seg_term=Str, ele_term=Str, subele_term=Str, repetition_term=Str, eol=Str)
 
 
+W_SEARCH = {'self/.gs_count': [1, 2, 3], 'self/.st_count': [0, 1, 2, 3], 'self/.seg_count': [1, 2, 4]}
 W_INV = 'winv(readback(self.fd_out.log), self.loops, self.gs_count, self.st_count, self.seg_count)'
 W_REQ = ['wf_stack(self.loops)', 'ids_present(self.loops)', W_INV,
          'self.hl_count >= 0 and self.lx_count >= 0 and self.gs_count >= 0 and self.st_count >= 0 and self.seg_count >= 0']
@@ -226,6 +227,7 @@ contract('pyx12.x12file.X12Writer.Write',
          returns=NoneT,
          requires=W_REQ + ['header_ok(self.loops, seg_data)'],
          ensures=['wf_stack(self.loops)', 'ids_present(self.loops)', W_INV,
+                  'closes_through(self.loops, seg_data.get_seg_id())',
                   "seg_data.get_seg_id() in ('IEA', 'GE', 'SE') or self.fd_out.log == old(self.fd_out.log) + [entry_of(seg_data, self)]",
                   "seg_data.get_seg_id() in ('ISA', 'LX') or seg_val(seg_data) == old(seg_val(seg_data))",
                   'self.hl_count >= 0 and self.lx_count >= 0 and self.gs_count >= 0 and self.st_count >= 0 and self.seg_count >= 0'],
@@ -233,6 +235,7 @@ contract('pyx12.x12file.X12Writer.Write',
          inline=['pyx12.x12file.X12Base._parse_segment'],
          split_on=_IDS,
          mutates=['seg_data'],
+         ghost={'probes': SEG_PROBES, 'search': W_SEARCH}, build='build_writer_write',
          serves=['C11'])
 
 contract('pyx12.x12file.X12Writer.Close',
@@ -241,4 +244,125 @@ contract('pyx12.x12file.X12Writer.Close',
          requires=W_REQ,
          ensures=['len(self.loops) == 0', 'readback(self.fd_out.log)[4]', 'len(readback(self.fd_out.log)[0]) == 0'],
          raises={},
+         build='build_writer_close', ghost={'search': W_SEARCH},
          serves=['C11'])
+
+
+# ---- native replay for the writer: the state is reached through a real write history ----
+class _WProxy(object):
+    """what the contract calls `self`: the real writer + its output read back as segments"""
+
+    def __init__(self, w, buf):
+        self._w, self._buf = w, buf
+
+    def __getattr__(self, k):
+        return getattr(self._w, k)
+
+    @property
+    def fd_out(self):
+        return self
+
+    @property
+    def log(self):
+        import io
+        import pyx12.segment
+        w = self._w
+        out = []
+        text = self._buf.getvalue()
+        for line in text.split(w.seg_term):
+            line = line.lstrip('\n\r')
+            if line == '':
+                continue
+            seg = pyx12.segment.Segment(line, w.seg_term, w.ele_term, w.subele_term)
+            out.append((seg, w.seg_term, w.ele_term, w.subele_term, w.eol))
+        return out
+
+
+def native_writer(state):
+    import io
+    import pyx12.x12file
+    import pyx12.segment
+    g = lambda k, d=None: state.get('.' + k, d)
+    depth = g('loops.__len__', 0) or 0
+    ids = []
+    for k in range(depth):
+        a = g('loops[%d][1]?a' % k)
+        v = g('loops[%d][1]?B' % k) if a is False else g('loops[%d][1]' % k)
+        ids.append(v if isinstance(v, str) and v else '%d' % (k + 1))
+    st, et, sub = (g('seg_term') or '~')[:1] or '~', (g('ele_term') or '*')[:1] or '*', (g('subele_term') or ':')[:1] or ':'
+    if len({st, et, sub}) < 3 or any(c.isalnum() or c.isspace() for c in (st, et, sub)):
+        st, et, sub = '~', '*', ':'
+    eol = g('eol') or ''
+    if any(c in eol for c in (st, et, sub)) or len(eol) > 2:
+        eol = '\n'
+    buf = io.StringIO()
+    w = pyx12.x12file.X12Writer(buf, st, et, sub, eol, '^')
+    S = lambda t: pyx12.segment.Segment(t.replace('*', et), st, et, sub)
+    ng, ns, nseg = max(int(g('gs_count', 0) or 0), 0), max(int(g('st_count', 0) or 0), 0), max(int(g('seg_count', 0) or 0), 0)
+    ng, ns, nseg = min(ng, 4), min(ns, 4), min(nseg, 6)
+    if depth >= 1:
+        w.Write(S('ISA*00*          *00*          *ZZ*SENDER         *ZZ*RECEIVER       *040608*1333*U*00401*%s*0*P*:' % ids[0]))
+        for k in range(max(ng - (1 if depth >= 2 else 0), 0)):
+            w.Write(S('GS*HC*A*B*20040608*1333*9%d*X*004010X098A1' % k))
+            w.Write(S('GE*0*9%d' % k))
+    if depth >= 2:
+        w.Write(S('GS*HC*A*B*20040608*1333*%s*X*004010X098A1' % ids[1]))
+        for k in range(max(ns - (1 if depth >= 3 else 0), 0)):
+            w.Write(S('ST*837*8%d' % k))
+            w.Write(S('SE*0*8%d' % k))
+    if depth >= 3:
+        w.Write(S('ST*837*%s' % ids[2]))
+        for k in range(max(nseg - 1, 0)):
+            w.Write(S('REF*87*004010X098A1'))
+    return w, buf
+
+
+def _native_seg_from_probes(pr, w):
+    import pyx12.segment
+    seg = native_segment(pr)
+    text = seg.format('~', '*', ':')[:-1].replace('*', w.ele_term)
+    return pyx12.segment.Segment(text, w.seg_term, w.ele_term, w.subele_term)
+
+
+def build_writer_write(args):
+    w, buf = native_writer(args.get('self', {}))
+    seg = _native_seg_from_probes(args.get('__probes__', {}), w)
+    px = _WProxy(w, buf)
+    return (lambda: w.Write(seg)), (), {'self': px, 'seg_data': seg}
+
+
+def build_writer_close(args):
+    w, buf = native_writer(args.get('self', {}))
+    px = _WProxy(w, buf)
+    return (lambda: w.Close()), (), {'self': px}
+
+
+def bounded_get_trailer_segment(seed, tier):
+    """native check of the ASSUMED contract of X12Writer._get_trailer_segment over a grid of
+    delimiters x kinds x counts x ids"""
+    import io
+    import itertools
+    import pyx12.x12file
+    delims = [('~', '*', ':'), ('!', '|', '>'), ('\n', '\t', '\\'), ('\x1c', '\x1d', '\x1f'), ('~', '+', '^'), ('$', '*', '|')]
+    kinds = ['IEA', 'GE', 'SE']
+    counts = [0, 1, 2, 9, 10, 99, 100, 12345]
+    ids = ['1', '0001', '000010121', 'A17', 'X Y', '17-3', 'a.b']
+    n = 0
+    failures = []
+    for (st, et, sub), kind, cnt, ident in itertools.product(delims, kinds, counts, ids):
+        if any(c in ident for c in (st, et, sub)):
+            continue
+        w = pyx12.x12file.X12Writer(io.StringIO(), st, et, sub, '\n', '^')
+        n += 1
+        try:
+            r = w._get_trailer_segment(kind, cnt, ident)
+            ok = r.get_seg_id() == kind and r.get_value('01') == str(cnt) and r.get_value('02') == ident and len(r) == 2
+            detail = 'returned %r' % r.format(st, et, sub)
+        except Exception as e:
+            ok = False
+            detail = 'raised %s: %s' % (type(e).__name__, e)
+        if not ok and len(failures) < 5:
+            failures.append({'input': {'delimiters': [st, et, sub], 'seg_id': kind, 'count': cnt, 'id': ident}, 'detail': detail})
+    return {'function': 'pyx12.x12file.X12Writer._get_trailer_segment', 'evaluations': n,
+            'bound': 'grid: 6 delimiter triples x 3 kinds x 8 counts x 7 ids (ids containing a delimiter skipped)',
+            'failures': failures}
